@@ -264,8 +264,15 @@ func (m *Machine) noteWrite(c *Cell) {
 	if m.local != nil && c.epoch < m.local.startEpoch {
 		panic(&pathEnd{endAbortLocal, "write to pre-existing object in summary"})
 	}
-	if m.watching && c.epoch < m.watchEpoch && !m.lsWrite(c) {
-		panic(&pathEnd{endWrite, "store to an object that existed before the observed operation"})
+	if m.watching && c.epoch < m.watchEpoch {
+		if !m.lsWrite(c) {
+			panic(&pathEnd{endWrite, "store to an object that existed before the observed operation"})
+		}
+		if c.epoch == 0 {
+			// synchronised (lock held / inside Once.Do), so not a data race - but the object was created by
+			// a package initialiser: "no package-level table is modified after initialisation"
+			panic(&pathEnd{endWrite, "synchronised store to package-level state after initialisation"})
+		}
 	}
 	if c.epoch == 0 && m.initDone {
 		m.trail = append(m.trail, trailEntry{c, c.v})
